@@ -29,6 +29,11 @@ EXPLANATION = (
     " length. (O2.9) the text of a rule token: a quoted token loses exactly its two enclosing quotes. (O2.10) the"
     " Integer / Decimal value hooks on concrete cells through the real int() / Decimal(): digit grouping with"
     " underscores is no number in data."
+    " Added in rounds 8 and 9: (O2.5) adjacent place holders of a DateTime layout are translated in one pass."
+    " (O2.8, second clause) an integer has a text of n characters as soon as its shortest text has at most n: the"
+    " length-derived range must not exclude zero-padded numbers (known finding). (O2.11) every pair of distinct"
+    " separators can be declared with every representable delimiter configuration (C11's exact consistency"
+    " matrix)."
 )
 ASSUMPTIONS = ["int(), decimal.Decimal(), time.strptime, re and fnmatch implement their documented semantics"]
 
